@@ -314,6 +314,15 @@ fn parse_at_rule(
                             let close = ss.append_nested_block(st, input);
                             close_stack.push(close);
                         }
+                        Token::Ident(x) if close_stack.is_empty() && x.eq_ignore_ascii_case("layer") => {
+                            // the bare keyword: an anonymous layer (it is not a media type)
+                            input.next().ok();
+                            let st = StepToken::wrap(Token::AtKeyword(x.clone()), peek.position);
+                            ss.append_token(st, input, Some(peek.token.clone()));
+                            let st = StepToken::wrap(Token::CurlyBracketBlock, peek.position);
+                            let close = ss.append_nested_block(st, input);
+                            close_stack.push(close);
+                        }
                         Token::Ident(_) | Token::ParenthesisBlock => {
                             has_media = true;
                             break;
